@@ -111,6 +111,25 @@ func genFamily(r *rand.Rand) *family {
 		}
 		f.Types = append(f.Types, t)
 	}
+	// embedding chains: leaf with a value and a pointer receiver method, wrapped three times by
+	// value or by pointer in every chain (the pattern is drawn per family), spread over packages
+	// in import order. These make sure that method sets through mixed pointer/value embedding
+	// paths are probed in every family, not only when the random draw happens to build one.
+	for ch := 0; ch < 2; ch++ {
+		leaf := &ctype{Pkg: "pa", Kind: "struct", Name: fmt.Sprintf("Leaf%d", ch)}
+		leaf.Methods = []method{{Name: "M0", Sig: 0, Ptr: true}, {Name: "M1", Sig: 1, Ptr: false}, {Name: "m0", Sig: 0, Ptr: r.Intn(2) == 0}}
+		f.Types = append(f.Types, leaf)
+		prev := leaf
+		for lvl, pk := range []string{"pa", "pb", "main"} {
+			w := &ctype{Pkg: pk, Kind: "struct", Name: fmt.Sprintf("Chain%d_%d", ch, lvl)}
+			w.Embeds = []embed{{prev, r.Intn(2) == 0}}
+			if r.Intn(4) == 0 {
+				w.Methods = []method{{Name: []string{"M0", "M1"}[r.Intn(2)], Sig: r.Intn(2), Ptr: r.Intn(2) == 0}}
+			}
+			f.Types = append(f.Types, w)
+			prev = w
+		}
+	}
 	ni := 5 + r.Intn(4)
 	for i := 0; i < ni; i++ {
 		it := &iface{Pkg: []string{"main", "pa"}[r.Intn(2)], Name: fmt.Sprintf("I%d", i)}
@@ -144,6 +163,10 @@ func genFamily(r *rand.Rand) *family {
 		}
 		f.Ifaces = append(f.Ifaces, it)
 	}
+	f.Ifaces = append(f.Ifaces,
+		&iface{Pkg: "main", Name: "IPM", Methods: []method{{Name: "M0", Sig: 0}}},
+		&iface{Pkg: "main", Name: "IBoth", Methods: []method{{Name: "M0", Sig: 0}, {Name: "M1", Sig: 1}}},
+		&iface{Pkg: "pa", Name: "IUnexp", Methods: []method{{Name: "m0", Sig: 0}, {Name: "M1", Sig: 1}}})
 	return f
 }
 
@@ -301,6 +324,8 @@ func Generate(r *rand.Rand) map[string]string {
 		b.WriteString("func AnonIface() interface{}  { var x interface{ M0() string }; return &x }\n")
 		b.WriteString("func AnonTagged() interface{} { return struct{ A int32 `json:\"" + pkg + "\"` }{1} }\n")
 		b.WriteString("func AnonUnexp() interface{}  { return struct{ a int32 }{1} }\n")
+		b.WriteString("var UV = struct{ a int32 }{1}\nvar UV2 = struct {\n\tx, y int32\n\tE   string\n}{1, 2, \"e\"}\n")
+		b.WriteString("func IsUV(i interface{}) bool  { _, ok := i.(struct{ a int32 }); return ok }\nfunc BoxUV2() interface{}      { return UV2 }\n")
 		// equally named local types
 		b.WriteString("func Local1() interface{} {\n\ttype T int32\n\treturn T(1)\n}\n\nfunc Local2() interface{} {\n\ttype T int32\n\treturn T(1)\n}\n\n")
 		files[pkg+"/"+pkg+".go"] = b.String()
@@ -339,6 +364,10 @@ func Generate(r *rand.Rand) map[string]string {
 		fmt.Fprintf(&b, "\tv%d := %s\n", i, mkValue(t, "main", 100+i))
 		fmt.Fprintf(&b, "\tvs = append(vs, v%d, &v%d)\n\tnames = append(names, %q, %q)\n", i, i, t.Pkg+"."+t.Name, "*"+t.Pkg+"."+t.Name)
 	}
+	b.WriteString("\tuvA, uvB, uv2A, uv2B := pa.UV, pb.UV, pa.UV2, pb.UV2 // unnamed struct values of other packages, boxed here\n")
+	b.WriteString("\tvs = append(vs, uvA, uvB, uv2A, uv2B, pa.BoxUV2(), pb.BoxUV2(), struct {\n\t\tx, y int32\n\t\tE    string\n\t}{1, 2, \"e\"})\n")
+	b.WriteString("\tnames = append(names, \"pa.UV@main\", \"pb.UV@main\", \"pa.UV2@main\", \"pb.UV2@main\", \"pa.BoxUV2\", \"pb.BoxUV2\", \"main.xyE\")\n")
+	b.WriteString("\temit(\"isuv\", lib.Btoa(pa.IsUV(uvA))+lib.Btoa(pa.IsUV(uvB))+lib.Btoa(pb.IsUV(uvA))+lib.Btoa(pb.IsUV(uvB))+lib.Btoa(pa.IsUV(pa.AnonUnexp()))+lib.Btoa(pa.IsUV(struct{ a int32 }{1})))\n")
 	b.WriteString("\tvs = append(vs, localA(), localB(), localC(), localA(), pa.Local1(), pa.Local2(), pb.Local1(), pa.AnonStruct(), pb.AnonStruct(), pa.AnonSlice(), pb.AnonSlice(), pa.AnonFunc(), pb.AnonFunc(), pa.AnonMap(), pb.AnonMap(), pa.AnonIface(), pb.AnonIface(), pa.AnonTagged(), pb.AnonTagged(), pa.AnonUnexp(), pb.AnonUnexp(), struct{ a int32 }{1}, struct {\n\t\tA int32\n\t\tB string\n\t}{1, \"x\"}, nil, int32(1), \"s\")\n")
 	b.WriteString("\tnames = append(names, \"localA\", \"localB\", \"localC\", \"localA2\", \"pa.Local1\", \"pa.Local2\", \"pb.Local1\", \"pa.AnonStruct\", \"pb.AnonStruct\", \"pa.AnonSlice\", \"pb.AnonSlice\", \"pa.AnonFunc\", \"pb.AnonFunc\", \"pa.AnonMap\", \"pb.AnonMap\", \"pa.AnonIface\", \"pb.AnonIface\", \"pa.AnonTagged\", \"pb.AnonTagged\", \"pa.AnonUnexp\", \"pb.AnonUnexp\", \"main.AnonUnexp\", \"main.AnonStruct\", \"nil\", \"int32\", \"string\")\n")
 	b.WriteString("\treturn vs, names\n}\n\n")
@@ -455,7 +484,7 @@ func main() {
 `)
 	src := b.String()
 	// shuffled order of the (value, interface) matrix
-	nvals := 2*len(f.Types) + 26
+	nvals := 2*len(f.Types) + 26 + 7
 	n := nvals * len(ifs)
 	perm := r.Perm(n)
 	strs := make([]string, n)
